@@ -401,7 +401,7 @@ pub fn ref_encode_init(d: &InitDesc, kp: &Ed25519KeyPair, salt: [u8; 4], with_un
     out
 }
 
-fn init_fields(m: &InitMsg) -> (u8, [u8; 20], Option<Vec<u8>>, Option<(bool, Vec<(u8, u32)>)>, Option<Vec<u8>>) {
+pub fn init_fields(m: &InitMsg) -> (u8, [u8; 20], Option<Vec<u8>>, Option<(bool, Vec<(u8, u32)>)>, Option<Vec<u8>>) {
     match m {
         InitMsg::Ping { salted_node_id_hash, ecdh_public_key, algorithms } => (
             1,
